@@ -562,6 +562,27 @@ def ldu(load_v, name):
             'template replacement must preserve DIRECTIVES and EXTRA_LOOP_TEST',
             line=pres.node.lineno)
 
+  # order of the state: set_state assigns its targets left to right, so a symbol
+  # that occurs in the subscript of a composite state variable has to come first
+  gbv = model.func(CF, 'ControlFlowTransformer._get_block_vars')
+  srt = [c for c in ast.walk(gbv.node) if isinstance(c, ast.Call) and
+         core.dotted(c.func) == 'sorted' and any(k.arg == 'key' for k in c.keywords)]
+  ok = len(srt) == 1
+  facts = {}
+  if ok:
+    key = [k.value for k in srt[0].keywords if k.arg == 'key'][0]
+    facts['key'] = core.norm(key)
+    ok = isinstance(key, ast.Lambda) and any(
+        isinstance(n, ast.Attribute) and n.attr in ('support_set', 'is_composite',
+                                                    'is_simple', 'owner_set')
+        for n in ast.walk(key.body))
+  rep.check(ok, 'SEQ', '%s:state-order-respects-support' % gbv.site,
+            'the state is sorted lexicographically (outputs first): `d[o.x]` sorts '
+            'before `o.x`, so set_state((a, k)) stores a under the *old* o.x and '
+            'get_state() then reads d[k]: a write followed by a read does not '
+            'return what was written', facts, line=gbv.node.lineno,
+            witness='if c: o.x = 1; d[o.x] = v')
+
   # directive arguments: every argument the user passed, positionally or by
   # keyword, is kept; only parameters left at UNSPECIFIED are dropped
   ma = model.func(DIRS, '_map_args')
